@@ -81,6 +81,13 @@ pub fn gen_c18(rng: &mut Rng, thorough: bool, release: bool) -> Vec<Tagged> {
             out.push(("gen-largest-states".into(), Case::RandGen { wrap, seed, n: 4, lo: 0.0, hi: 7.0 }));
         }
     }
+    // seeds that are multiples of the modulus (state 0: every draw is `min`, the identity shuffle) are as
+    // reproducible as any other seed
+    for mult in [0u64, 1, 2, 3, 1000, 8589934591, u64::MAX / LCG_M] {
+        let seed = mult.wrapping_mul(LCG_M);
+        out.push(("gen-seed-multiple-of-modulus".into(), Case::RandGen { wrap, seed, n: 4, lo: -1.0, hi: 1.0 }));
+        out.push(("shuffle-seed-multiple-of-modulus".into(), Case::Shuffle { wrap, seed, n: 6 }));
+    }
     // seeds far above the modulus: the first multiplication overflows u64
     for k in 0..(if thorough { 40 } else { 8 }) {
         let seed = match k % 4 {
